@@ -2,6 +2,7 @@ package ledger
 
 import (
 	"fmt"
+	"github.com/linxGnu/grocksdb"
 	"math"
 	"os"
 	"sort"
@@ -60,7 +61,10 @@ type Runner struct {
 	Funcs   map[string][]string // contract address -> sorted function names
 	Blocks  int
 	SaveAll bool
-	Plan    *sim.Plan
+	// Dead: the node under test panicked under an injected fault (fail-stop); the block under assembly is
+	// discarded and the remaining steps are skipped
+	Dead bool
+	Plan *sim.Plan
 	// Deferred operations run at the end of the block under assembly, before it is sealed.
 	Deferred []func()
 	// AllowPoke enables the "poke" op (C05: balances near 2^64 written directly into the block trie).
@@ -222,7 +226,7 @@ func short(b []byte) []byte {
 
 // EndBlock seals the current block.
 func (r *Runner) EndBlock(save bool) {
-	if r.BC == nil && len(r.Deferred) == 0 {
+	if r.Dead || r.BC == nil && len(r.Deferred) == 0 {
 		return
 	}
 	// operations deferred to the end of the block (an honest generator appends its
@@ -250,6 +254,9 @@ func (r *Runner) EndBlock(save bool) {
 // Step executes one base step; returns false when the op is unknown.
 func (r *Runner) Step(st sim.Step) bool {
 	w := r.W
+	if r.Dead {
+		return true
+	}
 	switch st.Op {
 	case "send":
 		r.EnsureBlock()
@@ -327,6 +334,57 @@ func (r *Runner) Step(st sim.Step) bool {
 			t := w.MakeTxn(TxnSpec{From: from, To: id, Type: transaction.TxnTypeSend, Value: r.ResolveValue(st.Int(1, VSmall), from), Fee: r.ResolveFee(0, from), Nonce: r.ResolveNonce(NExpected, from)})
 			r.Submit(t)
 		}
+	case "rdfault":
+		// one-shot disk read error inside one send (C01): the block under assembly is sealed and
+		// persisted, the head is served from the persistent node DB with empty caches (as after
+		// finalisation and a restart), then the I[1]-th disk read of the next send fails once.
+		// Skipped unless the whole head state is on the simulated disk (plan knob "save_all").
+		r.EndBlock(true)
+		head := w.Head
+		sdb := w.C.GetStateDB()
+		if head == nil || head.ClientState == nil || w.Disk == nil {
+			return true
+		}
+		if _, err := Leaves(sdb, head.ClientStateHash); err != nil {
+			w.Tr.Event("rdfault skipped: state of round %d is not complete on disk", head.Round)
+			return true
+		}
+		head.ClientState.SetNodeDB(sdb)
+		w.C.SetupStateCache()
+		r.EnsureBlock()
+		from, _ := w.Account(st.A)
+		to, _ := w.Account(int(st.Int(0, 0)))
+		t := w.MakeTxn(TxnSpec{From: from, To: to, Type: transaction.TxnTypeSend,
+			Value: r.ResolveValue(VSmall, from), Fee: r.ResolveFee(0, from), Nonce: r.ResolveNonce(NExpected, from)})
+		nth, seen, fired := uint64(st.Int(1, 0)), uint64(0), false
+		w.Disk.SetFault(func(_ *grocksdb.Disk, op string, _ uint64) error {
+			if op != "get" || fired {
+				return nil
+			}
+			if seen++; seen > nth {
+				fired = true
+				return grocksdb.ErrInjected
+			}
+			return nil
+		})
+		func() {
+			defer func() {
+				if rec := recover(); rec != nil {
+					// fail-stop under a disk error: the node dies, nothing of the block under assembly survives
+					w.Tr.Event("rdfault: node panicked under the read error: %v", rec)
+					w.Tr.Outcome("send-read-error/node-panicked")
+					r.Dead, r.BC = true, nil
+				}
+			}()
+			r.Submit(t)
+		}()
+		w.Disk.SetFault(nil)
+		if fired {
+			w.Tr.Fault("send_disk_read_error")
+		} else {
+			w.Tr.Probe("rdfault_not_fired")
+		}
+		w.Tr.Event("rdfault nth=%d fired=%v reads=%d", nth, fired, seen)
 	case "poke":
 		// boundary state outside what a conserving history can reach (C05 only):
 		// an account of the block under assembly is given a balance within
